@@ -825,25 +825,37 @@ impl<'s, const M: usize> Exec<'s, M> {
         self.interior_ok = false;
     }
 
-    pub fn run(mut self) -> RunReport {
+    pub fn begin(&mut self) {
         let script = self.script;
         self.cur_kind = "ctor";
         self.construct(script.ctor);
-        let every = if script.ops.len() <= 40 { 1 } else { 8 };
-        for (i, op) in script.ops.iter().enumerate() {
-            if !self.viol.is_empty() {
-                break;
-            }
-            self.cur = i;
-            self.cur_kind = op.kind();
-            self.step(op);
-            self.stats.steps += 1;
-            let live: usize = if every == 1 { self.blocks.values().map(|b| b.size).sum() } else { 0 };
-            let every = if live > (256 << 10) { 8 } else { every };
-            if self.viol.is_empty() && (i % every == every - 1) {
-                self.checkpoint();
-            }
+        self.pos = 0;
+    }
+
+    /// execute the next op; false when the script is finished (or a violation stopped it)
+    pub fn next_step(&mut self) -> bool {
+        let script = self.script;
+        if self.pos >= script.ops.len() || !self.viol.is_empty() {
+            return false;
         }
+        let i = self.pos;
+        self.pos += 1;
+        let every = if script.ops.len() <= 40 { 1 } else { 8 };
+        let op = &script.ops[i];
+        self.cur = i;
+        self.cur_kind = op.kind();
+        self.step(op);
+        self.stats.steps += 1;
+        let live: usize = if every == 1 { self.blocks.values().map(|b| b.size).sum() } else { 0 };
+        let every = if live > (256 << 10) { 8 } else { every };
+        if self.viol.is_empty() && (i % every == every - 1) {
+            self.checkpoint();
+        }
+        self.pos < script.ops.len() && self.viol.is_empty()
+    }
+
+    pub fn finish(mut self) -> RunReport {
+        let script = self.script;
         if self.viol.is_empty() {
             self.cur = script.ops.len();
             self.cur_kind = "end";
@@ -871,5 +883,29 @@ impl<'s, const M: usize> Exec<'s, M> {
             requests: simalloc::request_count(self.opts.arena),
             request_sizes: self.request_sizes,
         }
+    }
+
+    pub fn run(mut self) -> RunReport {
+        self.begin();
+        while self.next_step() {}
+        self.finish()
+    }
+}
+
+/// object-safe stepping interface, so that arenas of different MIN_ALIGN can be interleaved
+pub trait Driver {
+    fn d_begin(&mut self);
+    fn d_step(&mut self) -> bool;
+    fn d_finish(self: Box<Self>) -> RunReport;
+}
+impl<'s, const M: usize> Driver for Exec<'s, M> {
+    fn d_begin(&mut self) {
+        self.begin()
+    }
+    fn d_step(&mut self) -> bool {
+        self.next_step()
+    }
+    fn d_finish(self: Box<Self>) -> RunReport {
+        (*self).finish()
     }
 }
